@@ -154,7 +154,7 @@ def run(ctx):
                     allowed=gates, what='write_all of the transaction record')
             n_inst += 1
         ctx.extra['config_gates'] = {'Manifest::append': {'field': 'enable_fsync', 'false_targets': gates}}
-    opens = prog.calls_matching(suffix('Manifest::open'))
+    opens = prog.calls_matching_all(suffix('Manifest::open'))
     ctx.floor(R1 + 'd', len(opens), 2, 'Manifest::open call sites')
     for c in opens:
         a = c.args[1] if len(c.args) > 1 else None
@@ -285,7 +285,7 @@ def run(ctx):
     destructive = re.compile(r'(?:tokio|std)::fs::(remove_dir_all|remove_dir|remove_file|rename|hard_link|copy)$'
                              r'|fs::OpenOptions::(truncate)$|(?:tokio|std)::fs::File::(set_len)$')
     n = 0
-    for c in prog.calls_matching(destructive):
+    for c in prog.calls_matching_all(destructive):
         m = destructive.search(c.fn or c.name)
         kind = next(g for g in m.groups() if g)
         ok = c.body.root in OWN.get(kind, set())
@@ -294,7 +294,7 @@ def run(ctx):
                + ('' if ok else ' which is not an owner of file removal/rename/truncation'), [site(c.body, c.bb)])
     ctx.floor(R4, n, 4, 'destructive file operations (2 remove_dir_all, rename, truncate)')
     # data files: creation inside storage::secondary must not truncate an existing file
-    creators = prog.calls_matching(re.compile(r'fs::OpenOptions::(create|create_new)$|fs::File::create$'))
+    creators = prog.calls_matching_all(re.compile(r'fs::OpenOptions::(create|create_new)$|fs::File::create$'))
     for c in creators:
         if not c.body.name.startswith(SEC):
             continue
